@@ -77,7 +77,7 @@ CHECKS["C26"] = {"pkg": "net", "shards": 8,
     "text": "Generated histories of AddPeer / AddPeers / RemovePeer / trust / retry / ageing+stale-pass over valid, whitespace-laden and hostile address strings; after every step all stored addresses must satisfy an independently written ip:port predicate, bulk additions must respect the bound, trusted peers must survive everything but explicit removal; single strings (pools + one-character edits) are judged valid/invalid against the same predicate.",
     "note": "LastSeen is rewritten through the verif hook to exercise the time-dependent eviction rules; the predicate follows the definition of a global unicast IPv4 address (excluding unspecified, broadcast, multicast, link-local; loopback only when allowed)"}
 
-CHECKS["C25"] = {"pkg": "net", "extra_pkgs": [], "shards": 8, "fuzz": [{"target": "FuzzC25_Extra", "seconds": 60}],
+CHECKS["C25"] = {"pkg": "net", "more_pkgs": ["api"], "shards": 8, "fuzz": [{"target": "FuzzC25_Extra", "seconds": 60}],
     "technique": "property-based testing (rapid field-by-field generator) of IntroductionMessage.Verify against an independent parser of the Extra layout; message-order state machine against a real in-process daemon over loopback; native fuzzing of Extra in thorough",
     "text": "Generated-input search: introduction messages are assembled field by field with each documented condition independently satisfied or broken (self mirror, protocol version, pubkey, burn factor, max size, precision, user agent grammar and length, genesis hash length), cut at arbitrary positions or random; Verify must accept exactly when no condition is broken and never panic.",
     "note": "user-agent verdicts are asserted only for strings whose status under the documented grammar is unambiguous; sanitised variants are exercised for crashes only"}
